@@ -117,6 +117,7 @@ func (c *Ctx) load(patterns ...string) {
 	c.prog = nil
 	c.gemCache = nil
 	genVarFields = nil
+	freshNameFuncs = nil
 	env := append(os.Environ(), "GOFLAGS=-mod=readonly", "GOPROXY=off", "GOSUMDB=off", "GOTOOLCHAIN=local", "GOWORK=off")
 	cfg := &packages.Config{
 		Mode:  loadMode(),
